@@ -117,6 +117,15 @@ Theorem C07_analysis_total : RING -> k1 <> k0 -> forall sf mode spins H,
   cands_in_range mode (length spins) -> exists a, analyse true sf mode spins H = Done a.
 Proof. exact (analysis_total K k0 k1 kadd kmul ksub kopp kzero khalf). Qed.
 
+(** the code as it is (no S_z repair): the default analysis throws exWrongLabel exactly on the lattices where
+    every spin label is up or down but #up <> #down; the ignored and custom analyses always complete *)
+Theorem C07_analysis_total_unrepaired : RING -> k1 <> k0 -> forall sf spins H,
+  (analyse false sf (SymmDefault K) spins H = Throws 1 <-> sz_defined spins = false) /\
+  ((exists a, analyse false sf (SymmDefault K) spins H = Done a) <-> sz_defined spins = true) /\
+  (exists a, analyse false sf (SymmIgnore K) spins H = Done a) /\
+  (forall cands, Forall (in_range (length spins)) cands -> exists a, analyse false sf (SymmCustom K cands) spins H = Done a).
+Proof. exact (analysis_total_unrepaired K k0 k1 kadd kmul ksub kopp kzero khalf). Qed.
+
 End C07.
 
 (** The statements the code as it is violates (faithful model, evaluated at integer coefficients) *)
@@ -157,5 +166,6 @@ Print Assumptions C07_default_candidates_shift_uniformly.
 Print Assumptions C07_linear_candidates_shift_uniformly.
 Print Assumptions C07_accepted_shift_uniformly_fixed.
 Print Assumptions C07_analysis_total.
+Print Assumptions C07_analysis_total_unrepaired.
 Print Assumptions C07_single_target_refuted.
 Print Assumptions C07_analysis_total_refuted.
